@@ -27,6 +27,11 @@ var schedPlans = map[string][]string{
 	"C16": {"T-", "O-lastclose", "B-two-starts"},
 }
 
+// matrixProps: properties that also run the pairwise matrix (scenarios5.go: every unordered pair of a pool
+// of 29 operations on one key, in memory with one handle and on disk with two) at a deviation bound one
+// lower than the focused scenarios.
+var matrixProps = map[string]bool{"C03": true, "C08": true, "C09": true, "C17": true, "C20": true}
+
 type genPlan struct {
 	kind                      string
 	cfg                       Config
@@ -74,6 +79,15 @@ func RunCheck(prop, tier string, procs int, budget time.Duration) int {
 		RunSched(rep, pool, parts[1], b, deadline)
 		return rep.Finish()
 	}
+	if strings.HasPrefix(prop, "schedmany:") {
+		// developer entry: schedmany:<prefix>:<bound>
+		parts := strings.Split(prop, ":")
+		b, _ := strconv.Atoi(parts[2])
+		rep.Prop = "ALL"
+		rep.Rule = ruleSched
+		RunSchedMany(rep, pool, ScenarioNames(parts[1]), b, deadline)
+		return rep.Finish()
+	}
 	if strings.HasPrefix(prop, "kv:") {
 		// developer entry: kv:<depth>:<tier>[:disk]
 		parts := strings.Split(prop, ":")
@@ -112,6 +126,9 @@ func RunCheck(prop, tier string, procs int, budget time.Duration) int {
 			bound = 3
 		}
 		RunSchedMany(rep, pool, ScenarioNamesTier(quick, prefixes...), bound, deadline)
+		if matrixProps[prop] {
+			RunSchedManyKey(rep, pool, ScenarioNamesTier(quick, "P-"), bound-1, deadline, "sched_pairwise_matrix")
+		}
 	}
 	if prop == "C04" {
 		known = true
